@@ -191,6 +191,17 @@ func (d *queueDrv) Step(line string) string {
 		}
 		d.q = q
 		d.n.locked = q.VerifLocked
+		// every redis command of the queue belongs to the method (= the atomic step) that issues it: the queue's lock is held
+		// while the command runs. A command issued outside the lock can interleave with another method's positional commands.
+		n := d.n
+		d.fake.OnExec = func(name string, args [][]byte) {
+			switch name {
+			case "LRANGE", "LREM", "LSET", "RPUSH", "LLEN", "DEL":
+				if !q.VerifLocked() {
+					n.evs = append(n.evs, "UNLOCKEDCMD")
+				}
+			}
+		}
 		return "ok"
 	case "init":
 		err := d.q.Init(&queue.InitOptions{CleanStart: f[1] == "1", Version: packets.Version5,
